@@ -13,6 +13,31 @@ def unit_path_of(w, key, amt):
     return q.unit_path if q else None
 
 
+def dimless_form(t, amt):
+    """amount(x) -> x and scale(unit) -> 1 for the dimensionless amount type; x*1, x/1 simplified"""
+    def go(t):
+        if not isinstance(t, tuple):
+            return t
+        h = t[0]
+        if h == "app":
+            args = tuple(go(x) for x in t[3])
+            if t[1] == "Quantity::amount" and t[2] == amt and len(args) == 1:
+                return args[0]
+            if t[1] == "LinearScaledUnit::scale" and t[2] == "quantities::One":
+                return ("num", 1, amt)
+            return ("app", t[1], t[2], args)
+        if h in ("p", "num", "str", "bool", "unit", "variant", "none", "const", "panic", "bytes", "opaque_lit", "fnref", "cv", "closure", "lam"):
+            return t
+        if h == "R":
+            return ("R", go(t[1]))
+        if h == "adt":
+            return ("adt", t[1], t[2], tuple((n, go(x)) for n, x in t[3]))
+        if h in ("tuple", "array"):
+            return (h, tuple(go(x) for x in t[1]))
+        return (h,) + tuple(go(x) if isinstance(x, tuple) else x for x in t[1:])
+    return S._simp_units(go(t))
+
+
 def by_value_form(ctx, config, w, crate, op, A, B, Rr, imp, amt, rule="derived-form", inst=None):
     U = w.U
     inst = inst or "%s/%s %s %s" % (config, A, op, B)
@@ -45,6 +70,19 @@ def by_value_form(ctx, config, w, crate, op, A, B, Rr, imp, amt, rule="derived-f
             return ("val", S.new(prod, ("unwrap", T.canon(look)), tag=Rr))
         return ("val", S.app("HasRefUnit::_fit", S.R(("*", prod, sigma)), tag=Rr))
     probs = list(S.compare_cases(outs, [atom], spec))
+    if probs and amt in (A, B):
+        # an operand is the dimensionless amount: it is its own amount and its one unit has scale 1 (C08's rules), so
+        # code that uses the value directly is compared with the specification written the same way
+        dl = lambda t: dimless_form(t, amt)
+        outs2 = [(tuple((T.canon(dl(a)), p) for a, p in g), k, T.canon(dl(t))) for g, k, t in outs]
+        atom2 = T.canon(dl(atom))
+        look2 = dl(T.canon(look))
+
+        def spec2(val):
+            if val(atom2):
+                return ("val", dl(S.new(prod, ("unwrap", look2), tag=Rr)))
+            return ("val", S.app("HasRefUnit::_fit", S.R(dl(("*", prod, sigma))), tag=Rr))
+        probs = list(S.compare_cases(outs2, [atom2], spec2))
     obs = "; ".join("[%s] %s %s" % (T.show_guard(g), k, T.show(t)) for g, k, t in outs)
     ctx.ob(rule, inst, not probs,
            (probs[0][1] if probs else "") + " — the scale combination must use the impl's own operator, the natural-unit branch must store exactly "
@@ -107,7 +145,7 @@ def fit_form(ctx, config, U, w=None):
     syntactically evident; otherwise (e.g. the scale travels through the iterator in a tuple) by evaluating the
     summary on every cell of every result type's scale partition: within a cell the selected unit and hence the
     divisor is constant, and the amount is otherwise used in comparisons only (C05/amount-only-compared)."""
-    outs, b, ev = G.summarize(U, G.HRU + "_fit", set())
+    outs, b, ev = G.summarize(U, G.HRU + "_fit", {"*"})
     amount = S.P(0, "amount")
     ok = True
     why = ""
